@@ -26,7 +26,9 @@ def run_w(ctx, prop, plan, rule, level="model_checking", extra_assumptions=(), b
             k = ctx.seed % max(1, len(scens))
             scens = scens[k:] + scens[:k]
             allsc.extend(scens)
-            if block.get("kills") is not None:
+            if block.get("faults") is not None:
+                S.explore_faults(scens, block.get("policies", ("FIFO",)), kind=block["faults"])
+            elif block.get("kills") is not None:
                 for scen in scens:
                     S.explore_kills(scen, policy=block.get("policies", ("FIFO",))[0], base_schedules=block["kills"].get("bases", ({},)),
                                     restart_bound=block["kills"].get("restart_bound", 0), demote=block["kills"].get("demote", False))
